@@ -387,6 +387,18 @@ func binop(fr *frame, op token.Token, t types.Type, x, y value) value {
 	if _, ok := y.(*sym); ok {
 		return symBinop(fr, op, t, x, y)
 	}
+	if (op == token.EQL || op == token.NEQ) && (hasSymDeep(x) || hasSymDeep(y)) {
+		r := symEq(t, x, y)
+		if op == token.EQL {
+			return r
+		}
+		switch r := r.(type) {
+		case bool:
+			return !r
+		case *sym:
+			return mkBool(smtNot(r.e))
+		}
+	}
 	switch op {
 	case token.QUO, token.REM:
 		if isIntZero(y) {
